@@ -45,4 +45,16 @@ Inductive tok :=
 | TDecresc (len : list ch) (v1 v2 : Z)             (* Cresc / Decresc *)
 (* PLAY(part, ...) with literal parts; STR / Str definitions with a literal value *)
 | TPlay (args : list (option marg)) (lineno : Z)
-| TDefStr (name : list ch) (v : option marg).
+| TDefStr (name : list ch) (v : option marg)
+(* text meta events: value_i = the meta type of the table row, the FIRST argument ({text} / "text" / an integer literal / nothing) *)
+| TMetaText (ty : Z) (a : option marg)
+(* Port(n): the FIRST argument *)
+| TPort (v : Z)
+(* TempoChange(a [,b [,len]]): the first argument and the others (read_args_tokens yields at least one) *)
+| TTempoChange (a : Z) (rest : list Z)
+(* system exclusive messages *)
+| TSysEx (checksum : Z) (args : list Z)            (* SysEx: value_i = 1 when a {..} checksum group was read; -1 / -2 mark the group *)
+| TSysexReset (kind : Z)                           (* ResetGM (0) / ResetGS (1) / ResetXG (2) *)
+| TSysExCommand (tag : Z) (args : list Z)          (* MasterVolume (1) / MasterBalance (2) *)
+| TGSEffect (tag a : Z) (rest : list Z)            (* GSEffect / GSReverb... / GSChorus... / GS_RHYTHM / GSScaleTuning: first argument, the others *)
+| TDeviceNumber (args : list Z).
